@@ -6,6 +6,11 @@
 //    (See accompanying file LICENSE_1_0.txt or copy at
 //          https://www.boost.org/LICENSE_1_0.txt)
 
+#include <cassert>
+#include <cmath>
+#include <cstddef>
+#include <stdexcept>
+
 namespace parmcb {
 
 template<class T>
